@@ -198,7 +198,18 @@ func propGenuine(t *rapid.T) {
 			if mut == "oversize_secret_genuine" {
 				l = rapid.IntRange(513, 2000).Draw(t, "secret_len")
 			}
-			sec := strings.Repeat("s", l-16) + w.NewSecret()[:16]
+			// filler of 1-, 2-, 3- or 4-byte characters: the limit is in bytes, whatever the text
+			unit := rapid.SampledFrom([]string{"s", "s", "\u00e9", "\u4e16", "\U0001F95C", "\x00"}).Draw(t, "secret_filler")
+			sec := w.NewSecret()[:16]
+			for len(sec)+len(unit) <= l {
+				sec = unit + sec
+			}
+			for len(sec) < l {
+				sec = "s" + sec
+			}
+			if len(unit) > 1 {
+				rec.Class(fmt.Sprintf("secret_%s_multibyte_filler", map[bool]string{true: "over_512_bytes", false: "of_512_bytes"}[l > 512]))
+			}
 			np, ok := signedWithSecret(t, w, victim, sec)
 			if !ok {
 				continue
